@@ -36,9 +36,15 @@ func newChunked() (handlers.Handler, *fakemc.Server) {
 }
 
 func chunkedOn(f *fakemc.Server) handlers.Handler {
+	h, _ := chunkedOnID(f)
+	return h
+}
+
+// chunkedOnID also returns the fake's connection id.
+func chunkedOnID(f *fakemc.Server) (handlers.Handler, int) {
 	a, b := bufpipe.Pair()
-	f.ServeConn(b)
-	return chunked.NewHandler(a)
+	id := f.ServeConn(b)
+	return chunked.NewHandler(a), id
 }
 
 // keySlice returns key as a slice with the given spare capacity, plus a copy
